@@ -33,6 +33,15 @@ BOUND = {"quick": "depth 3 over 19 ops x 4 policies; mixed flavour/caller histor
 A, Bb = 361, 360
 NOW = (A, 10, 12)
 NOW_FT = A * 1024 * gkdi.B + 10 * 32 * gkdi.B + 12 * gkdi.B + 12345
+_SEQ_TAG = ["seq"]
+
+
+def set_now(l2: int) -> None:
+    """the instant at which every operation of a shard happens: (A, 10, 12) by default; the seq31 shards stand in the LAST L2 interval (A, 10, 31)"""
+    global NOW, NOW_FT
+    NOW = (A, 10, l2)
+    NOW_FT = A * 1024 * gkdi.B + 10 * 32 * gkdi.B + l2 * gkdi.B + 12345
+    _SEQ_TAG[0] = "seq" if l2 == 12 else "seq31"
 SID1 = "S-1-5-21-1-2-3-1104"
 SID2 = "S-1-5-21-1-2-3-1105"
 PT = b"c10-plaintext"
@@ -42,6 +51,8 @@ UNPROT = [("T1", (3, 5)), ("T1", (3, 20)), ("T1", (9, 20)), ("T1", (10, 5)), ("T
 OPS: t.List[t.Tuple[t.Any, ...]] = [("load",)] + [("unprot", T, p) for T, p in UNPROT] + [("prot", s, named) for s in ("T1", "T2") for named in (True, False)]
 # depth 4 (thorough) runs over the 10 operations that concern triple T1 and the L1-boundary neighbours of T3
 OPS4: t.List[t.Tuple[t.Any, ...]] = [o for o in OPS if o[0] == "load" or o[1] == "T1" or (o[0] == "unprot" and o[1] == "T3" and tuple(o[2]) in ((10, 31), (11, 0)))]
+# the same kind of histories while the clock stands in the last L2 interval of its L1 interval, (A, 10, 31): operations of triple T1 plus a blob of that very interval
+OPS31: t.List[t.Tuple[t.Any, ...]] = [("load",), ("unprot", "T1", (3, 5)), ("unprot", "T1", (10, 5)), ("unprot", "T1", (10, 31)), ("unprot", "T1", (9, 31)), ("prot", "T1", True), ("prot", "T1", False), ("prot", "T2", True)]
 POLICIES = ["exact", "later", "unauth", "noL2"]  # noL2: exact position, the envelope omits the L2 key when L2'=31
 # mixed histories: each operation additionally names its API flavour and its caller (a group member served with seed keys, or a
 # non-member whom the DC only hands the public key) - all sharing ONE cache
@@ -61,7 +72,7 @@ def world(seed: int):
         d = seams.Drbg(("C10", seed))
         rk = seams.make_root(d, "SHA256")
         blobs = {}
-        for T, p in UNPROT:
+        for T, p in UNPROT + [("T1", (10, 31)), ("T1", (9, 31))]:
             sid, l0 = TRIPLES[T]
             blobs[(T, p)] = cms.ref_encrypt(rk, sid, PT, (l0, p[0], p[1]), cek=d.bytes(32), gcm_nonce_=d.bytes(12), key_nonce=d.bytes(32), domain="domain.test", forest="domain.test")
         sds = {T: dtyp.target_sd(dtyp.parse_sid_string(TRIPLES[T][0])) for T in TRIPLES}
@@ -210,7 +221,7 @@ def dfs(w, acc, policy: str, cache, model: dict, history: t.List[t.Any], depth_l
         c2 = copy.deepcopy(cache)
         status, value, dc = run_op(w, c2, op, policy)
         hist2 = history + [list(op)]
-        case = ["seq", policy, hist2]
+        case = [_SEQ_TAG[0], policy, hist2]
         check_result(w, model, op, policy, status, value, dc, case, acc)
         m2 = model_update(w, model, op, dc)
         counter[0] += 1
@@ -239,7 +250,7 @@ def crosscheck(w, acc, policy, hist, status, value) -> None:
     same = st2 == status and (status != "ok" or hist[-1][0] != "unprot" or bytes(v2) == bytes(value))
     acc.stat_add("deepcopy_vs_replay_crosschecks")
     if not same:
-        acc.violate("harness.deepcopy-differs-from-replay", ["seq", policy, hist], {"copy": [status, repr(value)[:80]], "replay": [st2, repr(v2)[:80]]})
+        acc.violate("harness.deepcopy-differs-from-replay", [_SEQ_TAG[0], policy, hist], {"copy": [status, repr(value)[:80]], "replay": [st2, repr(v2)[:80]]})
 
 
 # -- concurrent exploration ------------------------------------------------------------------------------------
@@ -493,6 +504,9 @@ def shards(tier: str, seed: int):
         if tier == "thorough" and pol in ("exact", "later"):
             for i in range(len(OPS4)):
                 out.append(["seq4", pol, i, 4])
+    for pol in ("exact", "noL2", "later"):
+        for i in range(len(OPS31)):
+            out.append(["seq31", pol, i, 3])
     for i in range(len(MIXED_OPS)):
         out.append(["mixed", "exact", i, 3])
     pairs = []
@@ -524,16 +538,17 @@ def _norm(op) -> t.Tuple[t.Any, ...]:
 def run_shard(shard, tier, seed, acc) -> None:
     worker_init()
     w = world(seed)
-    if shard[0] in ("seq", "seq4", "mixed"):
+    set_now(31 if shard[0] == "seq31" else 12)
+    if shard[0] in ("seq", "seq4", "mixed", "seq31"):
         import dpapi_ng
 
         _, pol, first, depth = shard
-        ops = {"seq": OPS, "seq4": OPS4, "mixed": MIXED_OPS}[shard[0]]
+        ops = {"seq": OPS, "seq4": OPS4, "mixed": MIXED_OPS, "seq31": OPS31}[shard[0]]
         op = ops[first]
         cache = dpapi_ng.KeyCache()
         m = new_model()
         status, value, dc = run_op(w, cache, op, pol)
-        case = ["seq", pol, [list(op)]]
+        case = [_SEQ_TAG[0], pol, [list(op)]]
         check_result(w, m, op, pol, status, value, dc, case, acc)
         m2 = model_update(w, m, op, dc)
         acc.states += 1
@@ -555,7 +570,8 @@ def replay(case, seed, acc) -> None:
     worker_init()
     w = world(seed)
     acc.ev()
-    if case[0] == "seq":
+    set_now(31 if case[0] == "seq31" else 12)
+    if case[0] in ("seq", "seq31"):
         import dpapi_ng
 
         _, pol, hist = case[:3]
